@@ -211,6 +211,7 @@ func checkC04(c *Ctx, r *Report) {
 	// the names and scopes the router enforces and the spec documents are the same strings: nobody rewrites them in place
 	checkNoInPlaceWritesToInputs(c, r, "C04.a", "core/metadata", "generator/swagen", "generator/routes")
 	checkContainerFields(c, r, "C04.a")
+	checkNoDroppedParameters(c, r, "C04.d")
 	// every alternative of a route is documented or the generation fails: the functions that turn the
 	// effective security into requirements have no "nothing to do" shortcut
 	ruleNoNewEarlyExit(c, r, "C04.b", "a route's effective alternatives (or the error for an undeclared scheme) are then silently missing from the document while the router still enforces them", "generator/swagen",
